@@ -10,6 +10,7 @@ import (
 	"sync"
 
 	"github.com/nspcc-dev/neo-go/pkg/core/native/nativehashes"
+	"github.com/nspcc-dev/neo-go/pkg/core/native/noderoles"
 	"github.com/nspcc-dev/neo-go/pkg/core/state"
 	"github.com/nspcc-dev/neo-go/pkg/core/transaction"
 	"github.com/nspcc-dev/neo-go/pkg/crypto/hash"
@@ -159,6 +160,10 @@ func buildEntryContract(name string, sender util.Uint160, perms []manifest.Permi
 	m("nop", 0, smartcontract.VoidType)
 	a.op(opcode.RET)
 
+	// callback of an oracle request; the program it runs is the one _initialize finds in storage
+	m("oracleCb", 4, smartcontract.VoidType) // url, userdata, code, result
+	a.op(opcode.DROP, opcode.DROP, opcode.DROP, opcode.DROP, opcode.RET)
+
 	// _initialize: runs the program stored under the keys s,a,h,m,f (if any)
 	m("_initialize", 0, smartcontract.VoidType)
 	a.data("s")
@@ -234,11 +239,36 @@ func (pw *permWorld) deployEntryCallers(cs []callerSpec) error {
 			}
 		}
 	}
+	// the wildcard instance makes ONE oracle request (callback oracleCb); the oracle context answers it in test
+	// invocations after the instance updated itself to the permissions under test
+	for i := range cs {
+		if len(cs[i].Perms) == 1 && cs[i].Perms[0].Desc == "*" && cs[i].Perms[0].Wild && !pw.oracleReady {
+			com := []neotest.Signer{pw.n.Committee}
+			val := []neotest.Signer{pw.n.Validator}
+			d, err := pw.n.CallTx(com, nativehashes.RoleManagement, "designateAsRole", int64(noderoles.Oracle), []any{chainx.Acc(3).PublicKey().Bytes()})
+			if err != nil {
+				return fmt.Errorf("designate oracle: %w", err)
+			}
+			q, err := pw.n.CallTx(val, cs[i].ec.Hash, "call", []any{15, "request", nativehashes.OracleContract.BytesBE(), -1, []any{"https://x.y/z", nil, "oracleCb", nil, int64(gas)}})
+			if err != nil {
+				return fmt.Errorf("oracle request: %w", err)
+			}
+			if _, err := pw.n.AddBlock(d, q); err != nil {
+				return err
+			}
+			for _, tx := range []*transaction.Transaction{d, q} {
+				if err := pw.n.CheckHalt(tx.Hash()); err != nil {
+					return fmt.Errorf("oracle request: %w", err)
+				}
+			}
+			pw.oracleReq, pw.oracleReady = 0, true
+		}
+	}
 	return nil
 }
 
 // entryContexts in the order they are explored (simplest first).
-var entryContexts = []string{"app", "init", "payment", "deploy", "update", "loadscript", "verify-witness", "verify-tx"}
+var entryContexts = []string{"app", "init", "payment", "deploy", "update", "oracle", "loadscript", "verify-witness", "verify-tx"}
 
 // entryCase is one cell of the matrix (also the replay detail).
 type entryCase struct {
@@ -274,7 +304,9 @@ func entryProg(c *callee, md calleeMethod, self util.Uint160, sel int) []any {
 // the contract e (empty verification script, invocation script pushing prog).
 func (pw *permWorld) verifyTx(e util.Uint160, prog []any) (*transaction.Transaction, error) {
 	tx := transaction.New([]byte{byte(opcode.PUSH1), byte(opcode.RET)}, 1000000)
+	nonceMu.Lock() // verifyTx is called from parallel workers
 	tx.Nonce = pw.n.Nonce()
+	nonceMu.Unlock()
 	tx.ValidUntilBlock = pw.n.BC.BlockHeight() + 5
 	tx.NetworkFee = 2 * gas
 	tx.Signers = []transaction.Signer{
@@ -358,6 +390,32 @@ func (pw *permWorld) entryRun(ctx, kind string, cs callerSpec, tok int, c *calle
 		inner := entryProg(c, md, star.ec.Hash, sel)
 		outer := []any{15, "update", nativehashes.ContractManagement.BytesBE(), -1, []any{nil, mb, inner}}
 		got, detail = run(callScript(star.ec.Hash, "call", 15, outer))
+	case "oracle":
+		// Oracle.finish (called by the entry script, as an oracle response transaction does) makes the native
+		// contract call oracleCb of the wildcard instance, which by then has updated itself to the permissions of
+		// cs; the callback's _initialize runs the program stored by the preceding calls of set
+		args := md.Args(e.Hash)
+		if star == nil || !pw.oracleReady || len(args) != 1 {
+			return "", "", false
+		}
+		se := star.ec
+		mf := *e.Manifest
+		mf.Name = se.Manifest.Name
+		mb, err := json.Marshal(&mf)
+		if err != nil {
+			return "fault", err.Error(), true
+		}
+		set := func(k string, v []byte) []byte { return callScript(se.Hash, "set", 15, []byte(k), v) }
+		parts := [][]byte{callScript(se.Hash, "call", 15, []any{15, "update", nativehashes.ContractManagement.BytesBE(), -1, []any{nil, mb, nil}}),
+			set("h", c.Hash.BytesBE()), set("m", []byte(md.Name)), set("f", []byte{15})}
+		switch v := md.Args(se.Hash)[0].(type) {
+		case int:
+			parts = append(parts, set("a", []byte{byte(v)}))
+		case []byte:
+			parts = append(parts, set("a", v))
+		}
+		parts = append(parts, set("s", []byte{byte(int8(sel))}), callScript(nativehashes.OracleContract, "finish", 15))
+		got, detail = run(join(parts...))
 	case "loadscript":
 		if kind == "token" {
 			return "", "", false
@@ -392,6 +450,8 @@ func readOnlyContext(ctx string) bool {
 }
 
 var _ = vk.Root
+
+var nonceMu sync.Mutex
 
 // ---- driver -----------------------------------------------------------------------------------
 
